@@ -97,6 +97,11 @@ class ContainerBase:
     def mk_copy(self, copy_node: bool = False) -> ContainerBase:
         """Make a copy of self."""
         copied = copy.copy(self)
+        # The observable 'node' keeps its value and its observers in the instance dictionary _property_instance_data;
+        # copy.copy shares that dictionary: setting the node of the copy would also set the node of the original.
+        node = self.node
+        copied.__dict__.pop('_property_instance_data', None)
+        copied.node = node
         # Property values can be mutable (lists, nested data types). Do not share them with the original,
         # otherwise writing to a nested member of the copy would silently change the original as well.
         for _, cprop in self.sorted_container_properties():
